@@ -1640,3 +1640,196 @@ def context_round_trip(ctx, rule, names=None):
                    'from_dict does not restore %s: after an RPC hop / in a '
                    'scheduler job it has its default, whatever the sender '
                    'had' % a, ctx.loc(fd))
+
+
+MUTATORS = ('update', 'add', 'append', 'extend', 'pop', 'remove', 'discard',
+            'clear', 'sort', 'insert', 'setdefault', 'popitem', 'reverse',
+            'difference_update', 'intersection_update',
+            'symmetric_difference_update')
+FRESH_CALLS = ('set', 'list', 'dict', 'tuple', 'sorted', 'copy', 'deepcopy',
+               'frozenset', 'merge_dicts')
+
+
+def _fresh_expr(e):
+    if isinstance(e, (ast.List, ast.Set, ast.Dict, ast.ListComp,
+                      ast.SetComp, ast.DictComp, ast.Tuple, ast.Constant)):
+        return True
+    if isinstance(e, ast.Call) and U.call_name(e) in FRESH_CALLS:
+        return True
+    if isinstance(e, ast.BinOp):
+        return True
+    return False
+
+
+def handed_out_values_fresh(ctx, rule):
+    """A collection a spec method hands out and its caller then modifies in
+    place (`clauses = wf_spec.find_outbound_task_names(t); clauses.update(
+    ...)`) has to be the caller's own: built in the call and referenced from
+    nowhere else.  If the method also keeps it (a memo cache keyed by task
+    name) the caller's update rewrites what every later call - of every
+    execution served from the cached spec - gets back, so routing / join
+    decisions depend on what ran before."""
+    prog = ctx.prog
+    by_name = {}
+    for q, f in prog.funcs.items():
+        if f.module.startswith('mistral.lang.') and f.cls:
+            by_name.setdefault(f.name, []).append(f)
+    n = 0
+    for q, f in sorted(prog.funcs.items()):
+        if not (f.module.startswith('mistral.workflow.') or
+                f.module.startswith('mistral.engine.')):
+            continue
+        got = {}
+        for x in own_nodes(f.node):
+            if isinstance(x, ast.Assign) and len(x.targets) == 1 and \
+                    isinstance(x.targets[0], ast.Name) and \
+                    isinstance(x.value, ast.Call) and \
+                    isinstance(x.value.func, ast.Attribute) and \
+                    x.value.func.attr in by_name and \
+                    (dotted(x.value.func.value) or '').split('.')[-1]\
+                    .endswith('spec'):
+                got.setdefault(x.targets[0].id, []).append(x.value)
+        if not got:
+            continue
+        mutated = set()
+        for x in own_nodes(f.node):
+            if isinstance(x, ast.Call) and \
+                    isinstance(x.func, ast.Attribute) and \
+                    x.func.attr in MUTATORS and \
+                    isinstance(x.func.value, ast.Name) and \
+                    x.func.value.id in got:
+                mutated.add(x.func.value.id)
+            if isinstance(x, (ast.Assign, ast.AugAssign, ast.Delete)):
+                tg = [x.target] if isinstance(x, ast.AugAssign) else x.targets
+                for t in tg:
+                    if isinstance(t, ast.Subscript) and \
+                            isinstance(t.value, ast.Name) and \
+                            t.value.id in got:
+                        mutated.add(t.value.id)
+                    if isinstance(x, ast.AugAssign) and \
+                            isinstance(t, ast.Name) and t.id in got:
+                        mutated.add(t.id)
+        for v in sorted(mutated):
+            for call in got[v]:
+                for g in by_name[call.func.attr]:
+                    n += 1
+                    bad = _not_fresh_returns(ctx, g)
+                    rule.check(not bad, '%s :: %s handed to %s, modified '
+                               'there' % (g.qname, call.func.attr, f.qname),
+                               '%s; %s modifies the value in place (%s), so '
+                               'the kept copy changes with it'
+                               % (bad, f.qname, v), ctx.loc(g))
+    if n < 1:
+        raise AnalysisError('no spec result modified by its caller found '
+                            '(the anchor find_outbound_task_names / '
+                            '_find_indirectly... moved)')
+
+
+def _not_fresh_returns(ctx, g):
+    cfg = ctx.cfg(g)
+    kept = set()
+    for x in own_nodes(g.node):
+        if isinstance(x, ast.Assign) and isinstance(x.value, ast.Name):
+            for t in x.targets:
+                if isinstance(t, (ast.Subscript, ast.Attribute)) and \
+                        (dotted(t) or dotted(getattr(t, 'value', None)) or
+                         '').split('.')[0] in ('self', 'cls'):
+                    kept.add(x.value.id)
+        if isinstance(x, ast.Call) and isinstance(x.func, ast.Attribute) and \
+                (dotted(x.func.value) or '').split('.')[0] in ('self', 'cls') \
+                and x.func.attr in MUTATORS + ('__setitem__',):
+            for a in x.args:
+                if isinstance(a, ast.Name):
+                    kept.add(a.id)
+    for nd in cfg.nodes:
+        if not (nd.kind == 'stmt' and isinstance(nd.ast, ast.Return)):
+            continue
+        e = nd.ast.value
+        if e is None or _fresh_expr(e):
+            continue
+        if isinstance(e, ast.Name):
+            if e.id in kept:
+                return 'the returned %s is also kept in the spec object' \
+                    % e.id
+            rd = U.reaching_defs(cfg, e.id).get(nd.id, set())
+            if all(not isinstance(d, str) and _fresh_expr(d) for d in rd):
+                continue
+            return 'the returned %s is not built in the call on every ' \
+                'path (line %d)' % (e.id, nd.ast.lineno)
+        return 'returns %s, which is not built in the call (line %d)' % (
+            norm(e, 50), nd.ast.lineno)
+    return None
+
+
+def filters_never_dropped(ctx, rule):
+    """Every filter a caller passes narrows the query: inside the loop of
+    db.v2.sqlalchemy.filters.apply_filters each recognised operator adds its
+    predicate under no condition other than the operator tests themselves
+    (`'in' in value`, the isinstance of the value, the `tags` key) - in
+    particular not depending on the operand (an empty `in` list must select
+    nothing: the upstream tasks of a reverse task without `requires` are
+    "no tasks", not "all tasks")."""
+    prog = ctx.prog
+    f = prog.func('mistral.db.v2.sqlalchemy.filters.apply_filters')
+    cfg = ctx.cfg(f)
+    loops = [x for x in own_nodes(f.node) if isinstance(x, ast.For)]
+    if not loops:
+        raise AnalysisError('apply_filters: loop over the filters not found')
+    lp = loops[0]
+    kv = [norm(e) for e in lp.target.elts] \
+        if isinstance(lp.target, ast.Tuple) else []
+    if len(kv) != 2:
+        raise AnalysisError('apply_filters: loop target')
+    K, V = kv
+    n = 0
+    ops_seen = set()
+    for node, c in cfg.calls(lambda c: U.call_name(c) == 'filter'):
+        if not any(y is c for b in lp.body for y in ast.walk(b)):
+            continue
+        n += 1
+        atoms = U.guard_atoms(cfg, node)
+        extra = []
+        for a, t in atoms:
+            txt = norm(a)
+            if isinstance(a, ast.Compare) and \
+                    isinstance(a.ops[0], ast.In) and \
+                    isinstance(a.left, ast.Constant) and \
+                    norm(a.comparators[0]) == V:
+                if t:
+                    ops_seen.add(a.left.value)
+                continue
+            if txt in ('isinstance(%s, dict)' % V, "%s == 'tags'" % K):
+                continue
+            extra.append((txt, t))
+        rule.check(not extra, ctx.construct(f, c, extra='always applied'),
+                   'the predicate is only added when %s: a filter the '
+                   'caller passed can be dropped, the query then selects '
+                   'rows the caller excluded' % extra, ctx.loc(f, c))
+    # the operand reaches the predicate as passed
+    for op in sorted(ops_seen):
+        pass
+    if n < 8 or not {'in', 'nin', 'neq', 'eq'} <= ops_seen:
+        raise AnalysisError('apply_filters: %d predicates, operators %s'
+                            % (n, sorted(ops_seen)))
+    fb = [c for _n, c in cfg.calls(lambda c: U.call_name(c) == 'filter_by')]
+    ok = False
+    for nd, c in cfg.calls(lambda c: U.call_name(c) == 'filter_by'):
+        at = [(norm(a), t) for a, t in U.guard_atoms(cfg, nd)]
+        ok = at == [('filter_dict', True)] and any(
+            k.arg is None and norm(k.value) == 'filter_dict'
+            for k in c.keywords)
+    stores = [x for x in own_nodes(lp) if isinstance(x, ast.Assign) and
+              isinstance(x.targets[0], ast.Subscript) and
+              norm(x.targets[0].value) == 'filter_dict']
+    oks = len(stores) == 1 and norm(stores[0].targets[0].slice) == K and \
+        norm(stores[0].value) == V and \
+        [(norm(a), t) for a, t in U.guard_atoms(
+            cfg, cfg.stmt_node(stores[0]))
+         if norm(a) != "%s == 'tags'" % K] == [
+            ('isinstance(%s, dict)' % V, False)]
+    rule.check(ok and oks, ctx.construct(f, extra='plain values become '
+                                         'equality filters'),
+               'a plain filter value is not always turned into an equality '
+               'filter (filter_dict[key] = value for every non-dict value, '
+               'filter_by(**filter_dict) whenever it is not empty)',
+               ctx.loc(f))
